@@ -249,7 +249,7 @@ def _child(so, jobs, start, wfd):
         os._exit(0)
 
 
-def run(so, jobs, timeout_s: float = 120.0):
+def run(so, jobs, timeout_s: float = 300.0):
     """jobs: list of (symbol name, [argument vector, ...]).  Returns {(job index, vector index): outcome}
     where outcome is ("ok", {"rax":..., "rbx":..., ..., "rsp_before":..., "rsp_after":...}),
     ("crash", signal name) or ("timeout",) -- after a crash/timeout the remaining vectors of that
@@ -317,7 +317,8 @@ def run(so, jobs, timeout_s: float = 120.0):
             if timed_out:
                 raise ToolError("native child timed out outside any call")
             raise ToolError(f"native child ended early (status {status}) outside any call")
-        if timed_out:
+        if timed_out or (os.WIFSIGNALED(status) and os.WTERMSIG(status) == signal.SIGKILL):
+            # SIGKILL cannot come from the callee itself (watchdog / OOM killer): not a verdict
             results[last] = ("timeout",)
         elif os.WIFSIGNALED(status):
             sig = os.WTERMSIG(status)
